@@ -66,9 +66,13 @@ def check(ix, rep):
     # whether its shared operator is stepped once
     from sa.rules import step as _step
     _step.check_step(ix, rep, on)
+    nbe = _step.check_buffer_every_path(ix, rep, M_.operation_classes(ix, 'discrete'), 'discrete-online')
+    rep.floor('ring buffers of the operations the rewrite produces', nbe, 4)
     from sa.rules import units as _u
     npa = _u.check_period_reaches_ast(ix, rep)
     rep.floor('sampling settings the pastifier reads from the ast', npa, 2)
+    npn = unitflow.check_period_normalisers(ix, rep)
+    rep.floor('period normalisers', npn, 1)
     nhd = pastify.check_horizon_dimension(ix, rep, hcls)
     rep.floor('next handlers checked for the unit of their look-ahead', nhd, 2)
     nrt = pastify.check_roundtrip(ix, rep, pcls)
